@@ -197,6 +197,9 @@ var c11Suffixes = []string{"!", "?", "'", "*", "!!", "?!", "''", "!'", "*'?", "'
 
 func runC11(c *ctx) {
 	moves := legalShapes()
+	if c.tier == "replay" {
+		moves = []tak.Move{decodeMove(strings.Fields(readReplay(c).Input)[0])}
+	}
 	lines := make([]string, len(moves))
 	fails := make([]string, len(moves))
 	var wg sync.WaitGroup
